@@ -42,6 +42,11 @@ func (vx *Vaxis) reportWinsize() (Resize, error) {
 	}
 	if vx.xtwinops && vx.caps.reportSizeChars && vx.caps.reportSizePixels {
 		log.Trace("requesting screen size from terminal")
+		// Discard a report nobody asked for
+		select {
+		case <-vx.chSizeDone:
+		default:
+		}
 		io.WriteString(vx.console, textAreaSize)
 		deadline := time.NewTimer(100 * time.Millisecond)
 		select {
